@@ -3,10 +3,8 @@
 tie    : correspondence of the executable model `SuppModel.Proj` (driver drv_proj, variant "current") with
          supp.project.Project + assistant.assist/location + linter.lint on whole histories
          (write / touch / request), request by request; and of the model's `fresh` with a brand-new Project.
-         Streams: exhaustive short histories and random long ones with absolute imports (the domain of theorem
-         C09_partial), plus relative-import histories (norm_package/_norm_cache are modelled too; there the
-         property is FALSE of the current code — Witness.C09_norm_false — and the oracle failures that the model
-         predicts exactly are the open finding class `norm_cache`)
+         Streams: exhaustive short histories and random long ones with absolute imports, and the same with
+         relative imports (norm_package/_norm_cache/_renormed are modelled too; theorem C09 covers both)
 search : the real code against an independent oracle of the property: after every request of a history the
          long-lived project's answer is compared with a brand-new `Project([root])` on the same disk
 """
@@ -528,10 +526,24 @@ REL_EXH_OPS = [
 ]
 
 
+# the same files with NO __init__.py anywhere at first ('Not a package' is a cached answer too since a1df565);
+# the two package files appear in either order
+REL_EXH2_DISK = [d for d in REL_EXH_DISK if d[0] != [8, 9]]
+REL_EXH2_OPS = [
+    ['req', ['attr', [8, 9], 1, 10]],
+    ['req', ['loc', [8, 9], 1, 10]],
+    ['req', ['lint', [8, 9, 1], [10, 11, 12]]],
+    ['write', [8], []],
+    ['write', [8, 9], []],
+    ['write', [8, 9, 2], [['bind', 10, 5], ['bind', 13, 6]]],
+]
+
+
 def rel_exhaustive_histories(maxlen):
-    for n in range(1, maxlen + 1):
-        for ops in itertools.product(REL_EXH_OPS, repeat=n):
-            yield REL_EXH_DISK, REL_EXH_CLOCK, [list(o) for o in ops]
+    for disk, alphabet in ((REL_EXH_DISK, REL_EXH_OPS), (REL_EXH2_DISK, REL_EXH2_OPS)):
+        for n in range(1, maxlen + 1):
+            for ops in itertools.product(alphabet, repeat=n):
+                yield disk, REL_EXH_CLOCK, [list(o) for o in ops]
 
 
 def is_abs_history(disk, ops):
@@ -689,8 +701,8 @@ def run_stream(check, real, histories, state, stream):
             state['older_step'] += 1
         if rep.get('abs_ok', False):
             state['abs_histories'] += 1
-            if not rep.get('transparent', False):
-                state['abs_not_transparent'] += 1     # would contradict theorem C09_partial
+        if not rep.get('transparent', False):
+            state['abs_not_transparent'] += 1     # would contradict theorem C09
         if rep.get('abs_ok', False) != is_abs_history(disk, ops):
             state['abs_flag_mismatch'] += 1
         m_ans = [canon_model(a) for a in rep['answers']]
@@ -713,30 +725,18 @@ def run_stream(check, real, histories, state, stream):
                 state['shapes'][shape] = state['shapes'].get(shape, 0) + 1
             # oracle: long-lived == fresh (real code only)
             if first and a != f:
-                # the listed open defect: a history with relative imports on which the model (whose `_norm_cache` is
-                # never dropped either) predicts exactly this pair of answers
-                listed = (not is_abs_history(disk, ops) and m_ans[j] == a and m_fresh[j] == f)
-                if listed:
-                    state['norm_cache_requests'] += 1
-                    if not failed_here:
-                        failed_here = True
+                if not is_abs_history(disk, ops):
+                    state['norm_cache_requests'] += 1      # counter only: a stale answer on a relative-import history
+                state['oracle_failing_requests'] += 1
+                if not failed_here:
+                    failed_here = True
+                    state['oracle_failures'] += 1
+                    if not is_abs_history(disk, ops):
                         state['norm_cache_histories'] += 1
-                        rp = {'class': 'norm_cache', 'stream': stream, 'disk': disk, 'clock': clock,
-                              'ops': ops[:i + 1], 'long_lived': a, 'fresh': f}
-                        if state.get('norm_cache_witness') is None or len(ops[:i + 1]) < len(state['norm_cache_witness']['ops']):
-                            state['norm_cache_witness'] = rp
-                        if any(k.get('class') == 'norm_cache' for k in check.known):
-                            check.fail('relative import: _norm_cache keeps a package path computed before an __init__.py '
-                                       'was created above it (%s)' % kind, rp)
-                else:
-                    state['oracle_failing_requests'] += 1
-                    if not failed_here:
-                        failed_here = True
-                        state['oracle_failures'] += 1
-                        if state['oracle_failures'] <= 10:
-                            check.fail('long-lived project answers differently from a fresh one: %s' % kind,
-                                       {'class': 'stale', 'stream': stream, 'disk': disk, 'clock': clock,
-                                        'ops': ops[:i + 1], 'long_lived': a, 'fresh': f})
+                    if state['oracle_failures'] <= 10:
+                        check.fail('long-lived project answers differently from a fresh one: %s' % kind,
+                                   {'class': 'stale', 'stream': stream, 'disk': disk, 'clock': clock,
+                                    'ops': ops[:i + 1], 'long_lived': a, 'fresh': f})
             # correspondence
             if m_ans[j] != a and not bad_run:
                 bad_run = True
@@ -772,7 +772,7 @@ def run(check):
         check.prove(extra_targets=('drv_proj',), extra_audit_modules=('SuppModel.Witness.C09',))
         ok, out = common.lake_build(['SuppModel.Witness.C09'])
         check.oblige('witnesses SuppModel.Witness.C09 (C09_star, C09_ref, C09_created, C09_pinned_false, '
-                     'C09_coarseOnly_false, C09_lt, C09_lt_false, C09_norm_history, C09_norm_false, C09_norm)', ok, '' if ok else out[-2000:])
+                     'C09_coarseOnly_false, C09_lt, C09_lt_false, C09_norm_history, C09_norm_false (.noRenorm), C09_norm)', ok, '' if ok else out[-2000:])
         hits = common.grep_forbidden('SuppModel.Witness.C09')
         check.oblige('forbidden-construct audit of SuppModel.Witness.C09', not hits, '; '.join(hits))
 
@@ -795,7 +795,7 @@ def run(check):
 
     state = {'evaluations': 0, 'kinds': {}, 'shapes': {}, 'indirect': set(), 'created': set(), 'max_len': 0,
              'model_recursion': 0, 'oracle_failures': 0, 'oracle_failing_requests': 0, 'clock_not_ok': 0, 'older_step': 0,
-             'norm_cache_requests': 0, 'norm_cache_histories': 0, 'norm_cache_witness': None,
+             'norm_cache_requests': 0, 'norm_cache_histories': 0,
              'abs_histories': 0, 'abs_not_transparent': 0, 'abs_flag_mismatch': 0}
     root = tempfile.mkdtemp(prefix='zq_c09_')
     try:
@@ -813,38 +813,28 @@ def run(check):
                  '%d histories differ; %s' % (e_mr, ' || '.join(e_dr)) if e_mr else '')
     check.oblige('correspondence random histories (model run = supp Project, per request)', r_mr == 0,
                  '%d histories differ; %s' % (r_mr, ' || '.join(r_dr)) if r_mr else '')
-    check.oblige('correspondence relative-import histories (model run with _norm_cache = supp Project, per request)', l_mr == 0,
+    check.oblige('correspondence relative-import histories (model run with _norm_cache/_renormed = supp Project, per request)', l_mr == 0,
                  '%d histories differ; %s' % (l_mr, ' || '.join(l_dr)) if l_mr else '')
     n_mf_all = e_mf + r_mf + l_mf
     check.oblige('correspondence fresh project (model fresh = Project(sources) on the same disk)', n_mf_all == 0,
                  '%d histories differ; %s' % (n_mf_all, ' || '.join((e_df + r_df + l_df)[:3])) if n_mf_all else '')
     check.oblige('model hypotheses on the generated histories (freshMtimes, no recursion; absDisk/Op.isAbs as rendered; '
-                 'the model itself is transparent on every absolute-import history, as C09_partial says)',
+                 'the model itself is transparent on every history, as theorem C09 says)',
                  state['clock_not_ok'] == 0 and state['model_recursion'] == 0 and state['abs_flag_mismatch'] == 0
                  and state['abs_not_transparent'] == 0,
-                 'freshMtimes false on %d histories, %d recursion answers, %d abs-flag mismatches, %d absolute histories not transparent '
+                 'freshMtimes false on %d histories, %d recursion answers, %d abs-flag mismatches, %d histories not transparent '
                  'in the model' % (state['clock_not_ok'], state['model_recursion'], state['abs_flag_mismatch'],
                                    state['abs_not_transparent']))
 
-    # 3. probe of the hole outside the model
+    # 3. the history on which the code before a1df565 was stale (_norm_cache), by hand
     check.extra['norm_cache_probe'] = {'long_lived': probe['long_lived'], 'fresh': probe['fresh'],
                                        'first': probe['first'], 'stale': probe['stale']}
-    check.extra['norm_cache_stale_histories'] = state['norm_cache_histories']
+    check.extra['norm_cache_stale_histories'] = state['norm_cache_histories']      # must be 0
     check.extra['norm_cache_stale_requests'] = state['norm_cache_requests']
-    check.extra['norm_cache_shortest_history'] = state['norm_cache_witness']
-    listed = any(k.get('class') == 'norm_cache' for k in check.known)
-    if probe['stale'] and listed:
-        check.fail('package __init__.py created above an already-resolved relative import: '
-                   '_norm_cache keeps the old package path',
-                   dict(NORM_CACHE_HISTORY, long_lived=probe['long_lived'], fresh=probe['fresh']))
-    if (probe['stale'] or state['norm_cache_histories']) and not listed:
-        check.assumptions.append(
-            'OPEN DEFECT, not listed in KNOWN_FINDINGS.txt (class norm_cache, Lean witness Witness.C09_norm_false): '
-            'Project._norm_cache is never invalidated, so after zq_p8/__init__.py is created above the already-resolved '
-            '`from .zq_m2 import K10` of zq_p8/zq_p9/zq_m1.py the long-lived project answers %r where a fresh one answers %r; '
-            '%d relative-import histories of this run are stale in exactly the way the model predicts. They are reported here, '
-            'not as a VIOLATION: C09_partial covers absolute imports, C09_stmt is refuted in the model.'
-            % (probe['long_lived'], probe['fresh'], state['norm_cache_histories']))
+    if probe['stale']:
+        check.fail('package __init__.py created above an already-resolved relative import: the long-lived project keeps '
+                   'the old package path', dict(NORM_CACHE_HISTORY, **{'class': 'stale', 'long_lived': probe['long_lived'],
+                                                                       'fresh': probe['fresh']}))
 
     # 4. coverage
     check.cov['evaluations'] = state['evaluations']
@@ -878,8 +868,8 @@ def run(check):
     for h in sorted([h for h in rnd if history_stats(h[0], h[2])[0]], key=lambda h: len(h[2]))[:2]:
         check.sample({'stream': 'random', 'history': jshort(driver_request(*h), 1500)})
     check.assumptions += [
-        'C09_partial is about absolute imports; relative imports (norm_package/_norm_cache) are modelled and corresponded '
-        '(stream `relative`) but the property is false there (Witness.C09_norm_false)',
+        'relative imports (norm_package/_norm_cache/_renormed) are modelled, corresponded (stream `relative`) and covered by '
+        'theorem C09; a package directory that STOPS being one (deleting __init__.py) is outside the domain (no deletion)',
         'every write/touch gives the file an mtime it has not had before in the history (older or newer: the exhaustive streams '
         'alternate older/newer per file, the random streams draw distinct random values); set with os.utime, never sleeping',
         'acyclic import graphs over every source a history ever writes (star-import cycles recurse forever in the real code: '
